@@ -168,6 +168,8 @@ class Permute(_Hash):
 class PermuteGround(_Hash):
     """ground instances: the real permute on concrete inputs == independent plain-integer Poseidon == published vector"""
     name = "pysnark.poseidon_hash:permute#ground"
+    cprops = ()
+    tprops = ()
     skip_facets = "CT"        # satisfaction and trace shape are carried by the per-round contract (Permute); here: values only
 
     def configs(self, tier):
